@@ -839,6 +839,8 @@ Step(t, s) ==
   CASE s.op = "root"   -> Root(t, s.tr, s.smp)
     [] s.op = "child"  -> Child(t, s.ps, Len(s.ps) > 1)
     [] s.op = "childl" -> ChildLocal(t)
+    [] s.op = "mknoop" -> MkNoop(t)
+    [] s.op = "childm" -> Child(t, s.ps, TRUE)      \* enter_with_parents, also for a single (no-op) parent
     [] s.op = "setlp"  -> SetLp(t, s.h)
     [] s.op = "dropg"  -> DropG(t)
     [] s.op = "lenter" -> LEnter(t)
